@@ -129,6 +129,34 @@ class State:
         return any(g[3] for g in self.guards)
 
 
+def fold_cmp(v):
+    """comparison of two compile-time constants (enumerators, integer / bool literals) -> bool, else None"""
+    if not (isinstance(v, tuple) and v and v[0] == 'cmp'):
+        return None
+    a, b = v[2], v[3]
+
+    def const(x):
+        return isinstance(x, tuple) and x and x[0] in ('enum', 'int', 'bool')
+    if not (const(a) and const(b)):
+        return None
+    if a[0] != b[0]:
+        return None
+    if a[0] == 'enum' and (a[1] or '').split('::')[-1] != (b[1] or '').split('::')[-1]:
+        return None
+    op = v[1]
+    if a[0] == 'enum':
+        if op == '==':
+            return a[2] == b[2]
+        if op == '!=':
+            return a[2] != b[2]
+        return None
+    x, y = a[1], b[1]
+    try:
+        return {'==': x == y, '!=': x != y, '<': x < y, '>': x > y, '<=': x <= y, '>=': x >= y}[op]
+    except Exception:
+        return None
+
+
 def root_of(t):
     """Storage a location lives in: ('field', name) member of *this (or reached through it),
     ('local', name), ('param', name), ('heap', None) memory reached through an iterator of unknown
@@ -176,6 +204,21 @@ def root_of(t):
     return ('other', None)
 
 
+class LambdaMethod:
+    """call operator of a local lambda, shaped like frontend.Method for inlining"""
+
+    def __init__(self, node, owner):
+        self.node = node
+        self.id = node['id']
+        self.name = 'lambda'
+        self.params = [c for c in node.get('inner', []) if c.get('kind') == 'ParmVarDecl']
+        self.body = next((c for c in node.get('inner', []) if c.get('kind') == 'CompoundStmt'), None)
+        self.qname = '%s::<lambda>' % owner
+
+    def key(self):
+        return 'lambda(%s)' % ','.join(p.get('name', '_') for p in self.params)
+
+
 class Ctx:
     def __init__(self, prog, cm):
         self.prog = prog
@@ -183,6 +226,7 @@ class Ctx:
         self.counter = 0
         self.unknowns = []
         self.npaths = 0
+        self.lambdas = {}
 
 
 class Evaluator:
@@ -205,7 +249,7 @@ class Evaluator:
         k = loc[0]
         if k in ('int', 'bool', 'enum', 'ctor', 'now', 'rng', 'pred', 'res', 'adv', 'add', 'bin', 'cmp', 'not',
                  'unk', 'global', 'cast', 'hasval', 'optval', 'float', 'str', 'pair', 'undef', 'some', 'lv', 'ld', 'ma',
-                 'fn', 'void', 'default', 'un', 'mcall', 'fncall', 'randdev', 'rng-state', 'iota'):
+                 'fn', 'void', 'default', 'un', 'mcall', 'fncall', 'randdev', 'rng-state', 'iota', 'lambda'):
             if k == 'lv' and loc in st.store:
                 return st.store[loc]
             return loc
@@ -508,11 +552,24 @@ class Evaluator:
             return r.get('name'), r.get('id'), r.get('kind'), f
         return None, None, None, f
 
+    def e_LambdaExpr(self, n, st):
+        rec = next((c for c in n.get('inner', []) if c.get('kind') == 'CXXRecordDecl'), None)
+        ops_ = [c for c in (rec or {}).get('inner', []) if c.get('kind') == 'CXXMethodDecl' and c.get('name') == 'operator()']
+        if not ops_:
+            yield st, self.unknown(st, 'expr:LambdaExpr (generic / no call operator)', n)
+            return
+        self.ctx.lambdas[ops_[0]['id']] = LambdaMethod(ops_[0], st.fn_stack[-1] if st.fn_stack else '?')
+        yield st, ('lambda', ops_[0]['id'])
+
     def e_CXXOperatorCallExpr(self, n, st):
         name, fid, fkind, fnode = self.callee_name(n)
         args = n['inner'][1:]
         if name is None:
             yield st, self.unknown(st, 'opcall', n)
+            return
+        if name == 'operator()' and fid in self.ctx.lambdas:
+            # a lambda called in the function that defines it: inline its body (captures resolve through the enclosing scope)
+            yield from self.inline(self.ctx.lambdas[fid], args[1:], n, st)
             return
         a0 = args[0]
         t0 = typeclass(qt(a0))
@@ -602,6 +659,9 @@ class Evaluator:
         args = n['inner'][1:]
         if name is None:
             yield st, self.unknown(st, 'call:indirect', n)
+            return
+        if fid in self.cm.by_id and self.cm.by_id[fid].body is not None:
+            yield from self.inline(self.cm.by_id[fid], args, n, st)
             return
         if name in ('move', 'forward', 'as_const', 'addressof'):
             yield from self.eval(args[0], st)
@@ -904,6 +964,10 @@ class Evaluator:
             if isinstance(v, tuple) and v[0] == 'bool':
                 yield st2, v[1]
                 continue
+            folded = fold_cmp(v)
+            if folded is not None:
+                yield st2, folded
+                continue
             if isinstance(v, tuple) and v[0] == 'not':
                 v = v[1]
                 inv = True
@@ -1062,6 +1126,73 @@ class Evaluator:
         for st2, t in self.rv(inner[0], st):
             st2.ev('ret', t, site_of(n, st2))
             yield st2, ('ret', t)
+
+    def s_SwitchStmt(self, n, st):
+        parts = [c for c in n.get('inner', []) if isinstance(c, dict) and c.get('kind')]
+        cond, body = parts[-2], parts[-1]
+        # flatten the body into (label, stmt) pairs: label = ('case', node) / ('default',) / None
+        flat = []
+
+        def unwrap(x):
+            k = x.get('kind')
+            if k == 'CaseStmt':
+                inner = [c for c in x.get('inner', []) if c.get('kind')]
+                flat.append((('case', inner[0]), None))
+                unwrap(inner[-1])
+            elif k == 'DefaultStmt':
+                inner = [c for c in x.get('inner', []) if c.get('kind')]
+                flat.append((('default',), None))
+                unwrap(inner[-1])
+            else:
+                flat.append((None, x))
+        for c in [c for c in body.get('inner', []) if c.get('kind')] if body.get('kind') == 'CompoundStmt' else [body]:
+            unwrap(c)
+        labels = [(i, l) for i, (l, x) in enumerate(flat) if l is not None]
+
+        def run_from(i, st):
+            stmts = [x for (l, x) in flat[i:] if x is not None]
+
+            def go(j, st):
+                if j == len(stmts):
+                    yield st, None
+                    return
+                for st2, flow in self.exec(stmts[j], st):
+                    if flow == ('break',):
+                        yield st2, None
+                    elif flow is not None:
+                        yield st2, flow
+                    else:
+                        yield from go(j + 1, st2)
+            yield from go(0, st)
+
+        for st1, v in self.rv(cond, st):
+            cases = [(i, l) for i, l in labels if l[0] == 'case']
+            default = next((i for i, l in labels if l[0] == 'default'), None)
+
+            def chain(k, st):
+                if k == len(cases):
+                    if default is not None:
+                        yield from run_from(default, st)
+                    else:
+                        yield st, None
+                    return
+                i, l = cases[k]
+                for st2, cv in self.rv(l[1], st):
+                    term = ('cmp', '==', v, cv)
+                    s_ = site_of(l[1], st2)
+                    f = fold_cmp(term)
+                    if f is True:
+                        yield from run_from(i, st2)
+                        continue
+                    if f is False:
+                        yield from chain(k + 1, st2)
+                        continue
+                    stt = st2.clone()
+                    stt.ev('cond', term, True, s_)
+                    yield from run_from(i, stt)
+                    st2.ev('cond', term, False, s_)
+                    yield from chain(k + 1, st2)
+            yield from chain(0, st1)
 
     def s_BreakStmt(self, n, st):
         yield st, ('break',)
